@@ -595,6 +595,11 @@ func (ServicesData) analyze(httpSvc *expr.HTTPServiceExpr) *ServiceData {
 	scope := codegen.NewNameScope()
 	scope.Unique("c") // 'c' is reserved as the client's receiver name.
 	scope.Unique("v") // 'v' is reserved as the request builder payload argument name.
+	// The names of the service and views packages are reserved: a variable
+	// holding a parameter, header or cookie value with the same name would
+	// shadow the package in the code that refers to the service types.
+	scope.Unique(svc.PkgName)
+	scope.Unique(svc.ViewsPkg)
 	rd := &ServiceData{
 		Service:          svc,
 		ServerStruct:     "Server",
